@@ -185,7 +185,7 @@ func init() {
 		}
 		for i := n - 1; i > 0; i-- {
 			j := X.decide(i+1, func(int) string { return "" })
-			X.choices = append(X.choices, j)
+			X.shuffles = append(X.shuffles, j)
 			call(fr.i, fr, token.NoPos, a[1], []value{i, j})
 		}
 		return nil
